@@ -549,7 +549,13 @@ impl Gen {
                     }
                     Op::MkDir { ds, name, fl: self.rng.below(2) as u8 }
                 }),
-                17 => Some(Op::HasOpen),
+                17 => {
+                    if self.p.name == "C08" && self.rng.chance(1, 25) {
+                        Self::used_slot(&w.vslots, &mut self.rng).map(|vs| Op::Churn { vs, n: *self.rng.pick(&[3u32, 300, 65535, 65536, 65537, 70000]) })
+                    } else {
+                        Some(Op::HasOpen)
+                    }
+                }
                 18 => Self::used_slot(&w.vslots, &mut self.rng).map(|vs| Op::Label { vs }),
                 19 => match self.rng.below(3) {
                     0 => Self::dead_slot(&w.vslots, &mut self.rng).map(|vs| Op::StaleVol { vs, m: self.rng.below(3) as u8 }),
